@@ -706,7 +706,12 @@ impl Open for VirtualSystem {
             /* is_nonblocking = */ false,
         )));
         let fd = self.create_fd(open_file_description, OpenFlag::Directory.into())?;
-        self.fdopendir(fd)
+        let dir = self.fdopendir(fd);
+        // The returned directory stream holds a snapshot of the entries and
+        // does not use the file descriptor, so release it now rather than
+        // leaking it.
+        self.current_process_mut().close_fd(fd);
+        dir
     }
 }
 
